@@ -390,7 +390,8 @@ void svalue_to_string (svalue_t * obj, outbuffer_t * outbuf, int indent, char de
         outbuf_add (outbuf, n == 1 ? " element\n" : " elements\n");
         for (i = 0; i < (obj->u.arr->size) - 1; i++)
           svalue_to_string (&(obj->u.arr->item[i]), outbuf, indent + 2, ',', flags);
-        svalue_to_string (&(obj->u.arr->item[i]), outbuf, indent + 2, 0, flags);
+        if (n > 0)		/* a class may have no members at all */
+          svalue_to_string (&(obj->u.arr->item[i]), outbuf, indent + 2, 0, flags);
         if (0==(flags & SV2STR_NONEWLINE))
           outbuf_addchar (outbuf, '\n');
 
